@@ -56,3 +56,50 @@ Example C19_example :
   get (copy_raw rho_std c) 1000 2 = RNone /\ get (copy_raw rho_std c) 1000 3 = RFound 3 300
   /\ get (copy_flat rho_std c 3) 1000 3 = RFound 3 300 /\ get (copy_flat rho_std c 1) 1000 3 = RFound 1 100.
 Proof. vm_compute. repeat split. Qed.
+
+(* ---- version-limited transfer (MigrateInstance with transmit=<uuid list>; datastore/copy_local.go copyVersions) ---- *)
+From DV Require Import Model.Transfer Proofs.Transfer.
+
+(* For every datum, every set of stored entries (ids ascending, as the store orders them), every lineage
+   (onp), every ascending list of transmitted versions: at every transmitted version the destination answers
+   what the source answers. [same_entry] is the repeat test of the repaired code. *)
+Theorem C19_transfer_reads_equal :
+  forall onp es ts t,
+    asc_es 0 es = true -> ascending 0 ts = true -> In t ts ->
+    dst_read (transfer same_entry onp es ts) t = src_read onp es t.
+Proof. exact transfer_reads_equal. Qed.
+Print Assumptions C19_transfer_reads_equal.
+
+(* Nothing is written at a version that was not asked for, and entries off the lineage play no part. *)
+Theorem C19_transfer_only_transmitted :
+  forall same onp es ts v e, In (v, e) (transfer same onp es ts) -> In v ts.
+Proof. exact transfer_only_transmitted. Qed.
+Print Assumptions C19_transfer_only_transmitted.
+
+Theorem C19_transfer_ignores_off_path :
+  forall same onp es ts, transfer same onp es ts = transfer same onp (on_path onp es) ts.
+Proof. exact transfer_ignores_off_path. Qed.
+Print Assumptions C19_transfer_ignores_off_path.
+
+(* The repeat test of the code before the repair (value bytes only) is right only when no stored value is
+   empty, and wrong otherwise: an empty value followed by its deletion (every ROI span) loses the deletion. *)
+Theorem C19_transfer_old_rule_partial :
+  forall onp es ts t,
+    asc_es 0 es = true -> nonempty_values es = true -> ascending 0 ts = true -> In t ts ->
+    dst_read (transfer same_bytes onp es ts) t = src_read onp es t.
+Proof. exact transfer_old_reads_equal_partial. Qed.
+Print Assumptions C19_transfer_old_rule_partial.
+
+Theorem C19_transfer_old_rule_refuted :
+  exists es ts t, asc_es 0 es = true /\ ascending 0 ts = true /\ In t ts /\
+    dst_read (transfer same_bytes (fun _ => true) es ts) t <> src_read (fun _ => true) es t.
+Proof. exact transfer_old_refuted. Qed.
+Print Assumptions C19_transfer_old_rule_refuted.
+
+Example C19_transfer_example :
+  let es := [(1%nat, TVal [5]); (2%nat, TVal [5]); (3%nat, TTomb); (4%nat, TVal []); (6%nat, TVal [9])] in
+  let onp := fun v => negb (Nat.eqb v 4) in
+  asc_es 0 es = true /\ ascending 0 [2; 3; 6]%nat = true /\
+  transfer same_entry onp es [2; 3; 6]%nat = [(2%nat, TVal [5]); (3%nat, TTomb); (6%nat, TVal [9])] /\
+  transfer same_entry onp es [1; 2; 5]%nat = [(1%nat, TVal [5]); (5%nat, TTomb)].
+Proof. vm_compute. repeat split. Qed.
